@@ -76,8 +76,6 @@ func Load(o LoadOpts) (*Prog, error) {
 		packages.NeedTypes | packages.NeedTypesSizes | packages.NeedSyntax | packages.NeedTypesInfo | packages.NeedModule
 	if o.All {
 		mode |= packages.NeedDeps
-	} else {
-		mode |= packages.NeedDeps // types of deps come from source when export data is unavailable offline
 	}
 	env := append(os.Environ(), "GOFLAGS=-mod=mod", "GOPROXY=off", "GOWORK=off")
 	env = append(env, o.Env...)
